@@ -1,14 +1,15 @@
-(** Invariants of the wait-list protocol (Model/PoolWait.v): lock discipline,
-    classification of every state in which the holder of the pool lock cannot
-    move, provenance of the heads a waiter receives. *)
-From Coq Require Import List NArith Bool Arith Lia.
-From Tongo Require Import Model.PoolWait.
+(** Invariants of the wait-list protocol of the repaired code (Model/PoolWait.v):
+    lock discipline, the holder of the pool lock can always move and frees the
+    lock after finitely many moves of its own, callers that left their loop return,
+    the best connection is always a connection of the pool. *)
+From Coq Require Import List NArith ZArith Bool Arith Lia.
+From Tongo Require Import Model.Pool Model.PoolWait Proofs.PoolP.
 Import ListNotations.
 
 Ltac sred :=
-  cbn [head cpc updq best readers writer wl next_id rpc wpc wid wch wgot log
-       set_head set_cpc set_updq set_best set_readers set_writer set_wl set_next_id
-       set_rpc set_wpc set_wid set_wch set_wgot set_log fst snd] in *.
+  cbn [head pend updq best readers writer wl next_id rpc wpc wid wch wgot woff log
+       set_head set_pend set_updq set_best set_readers set_writer set_wl set_next_id
+       set_rpc set_wpc set_wid set_wch set_wgot set_woff set_log fst snd] in *.
 
 Lemma fupd_same {A} (f : nat -> A) i v : fupd f i v i = v.
 Proof. unfold fupd. rewrite Nat.eqb_refl. reflexivity. Qed.
@@ -32,6 +33,9 @@ Proof.
   unfold lock_free. intros H. apply andb_true_iff in H as [Hr Hw].
   apply Nat.eqb_eq in Hr. destruct (writer s); [discriminate|auto].
 Qed.
+
+Lemma lock_free_intro s : readers s = 0 -> writer s = None -> lock_free s = true.
+Proof. unfold lock_free. intros -> ->. reflexivity. Qed.
 
 Lemma is_writer_run s : is_writer s ARun = true -> writer s = Some ARun.
 Proof. unfold is_writer. destruct (writer s) as [[|w]|]; congruence. Qed.
@@ -63,46 +67,63 @@ Ltac guards :=
   end.
 
 Section Inv.
+  Variable strat : strategy.
   Variable nconns : nat.
   Variable tgt : nat -> N.
-  Notation step := (step nconns tgt).
-  Notation reachable := (reachable nconns tgt).
+  Notation step := (step strat nconns tgt).
+  Notation run := (run strat nconns tgt).
+  Notation reachable := (reachable strat nconns tgt).
+
+  Lemma run_app ls1 : forall s ls2,
+    run s (ls1 ++ ls2) = match run s ls1 with Some s1 => run s1 ls2 | None => None end.
+  Proof.
+    induction ls1 as [|l t IH]; intros s ls2; cbn [app PoolWait.run]; [reflexivity|].
+    destruct (step s l); [apply IH|reflexivity].
+  Qed.
+
+  Lemma run_reachable ls : forall s0 s s',
+    reachable s0 s -> run s ls = Some s' -> reachable s0 s'.
+  Proof.
+    induction ls as [|l t IH]; intros s0 s s' Hr Hrun; cbn [PoolWait.run] in Hrun.
+    - injection Hrun as <-. exact Hr.
+    - destruct (step s l) as [s1|] eqn:Hs; [|discriminate].
+      eapply IH; [|exact Hrun]. eapply reach_step; eassumption.
+  Qed.
+
+  Lemma reachable_trans s0 s s' : reachable s0 s -> reachable s s' -> reachable s0 s'.
+  Proof. intros H0 H1. induction H1; [exact H0|eapply reach_step; eassumption]. Qed.
 
   (** ---- 1. lock discipline ---- *)
 
   Definition lock_inv (s : state) : Prop :=
-    readers s = match rpc s with RNotify _ _ => 1 | _ => 0 end /\
-    (forall u rem, rpc s = RNotify u rem -> writer s = None) /\
-    (writer s = Some ARun <-> exists k, rpc s = RUpd k) /\
-    (forall w, writer s = Some (AW w) <-> wpc s w = WSubL) /\
-    (forall k, rpc s = RUpd k -> k <= nconns).
+    readers s = match rpc s with RNotify _ _ _ => 1 | _ => 0 end /\
+    (forall u mt rem, rpc s = RNotify u mt rem -> writer s = None) /\
+    (writer s = Some ARun <-> rpc s = RUpd) /\
+    (forall w, writer s = Some (AW w) <-> wpc s w = WSubL).
 
   Lemma lock_inv_init heads b : lock_inv (init_state heads b).
   Proof.
     unfold lock_inv, init_state. sred. repeat apply conj; try discriminate; try reflexivity.
-    - intros [k Hk]. discriminate.
-    - intros w; split; discriminate.
+    all: intros w; split; discriminate.
   Qed.
 
   Lemma lock_inv_step s l s' : lock_inv s -> step s l = Some s' -> lock_inv s'.
   Proof.
-    intros (Hrd & Hmx & [Hrun1 Hrun2] & Hw & Hk) Hs. unfold lock_inv.
+    intros (Hrd & Hmx & [Hrun1 Hrun2] & Hw) Hs. unfold lock_inv.
     assert (Hw1 := fun w => proj1 (Hw w)). assert (Hw2 := fun w => proj2 (Hw w)). clear Hw.
     step_inv Hs; guards; sred.
     all: repeat apply conj.
-    all: intros; try split; intros;
-         repeat match goal with H : exists _, _ |- _ => destruct H end; fu; sred.
+    all: intros; try split; intros; fu; sred.
     all: try solve [eauto].
-    all: try (match goal with H : RUpd _ = RUpd _ |- _ => injection H as <- end).
     all: repeat match goal with
          | H : wpc _ ?w = WSubL |- _ => apply Hw2 in H
-         | H : rpc _ = RUpd ?k |- _ =>
+         | H : rpc _ = RUpd |- _ =>
              lazymatch goal with
              | _ : writer _ = Some ARun |- _ => fail
-             | _ => pose proof (Hrun2 (ex_intro _ k H))
+             | _ => pose proof (Hrun2 H)
              end
          end.
-    all: try match goal with H : writer _ = Some ARun |- _ => destruct (Hrun1 H) end.
+    all: try match goal with H : writer _ = Some ARun |- _ => pose proof (Hrun1 H) end.
     all: try match goal with H : writer _ = Some (AW ?w) |- _ => pose proof (Hw1 _ H) end.
     all: repeat match goal with
          | H : rpc _ = _ |- _ => rewrite H in *
@@ -122,139 +143,296 @@ Section Inv.
     reachable (init_state heads b) s ->
     (writer s <> None -> readers s = 0) /\
     (forall w w', wpc s w = WSubL -> wpc s w' = WSubL -> w = w') /\
-    (forall w k, wpc s w = WSubL -> rpc s <> RUpd k).
+    (forall w, wpc s w = WSubL -> rpc s <> RUpd).
   Proof.
-    intros Hr. destruct (lock_inv_reachable _ _ _ Hr) as (Hrd & Hmx & [Hrun1 Hrun2] & Hw & Hk).
+    intros Hr. destruct (lock_inv_reachable _ _ _ Hr) as (Hrd & Hmx & [Hrun1 Hrun2] & Hw).
     repeat apply conj.
     - intros Hwr. rewrite Hrd. destruct (rpc s) eqn:Hp; try reflexivity.
       exfalso. apply Hwr. eapply Hmx. reflexivity.
     - intros w w' H1 H2. apply Hw in H1. apply Hw in H2. congruence.
-    - intros w k H1 H2. apply Hw in H1. assert (writer s = Some ARun) by eauto. congruence.
+    - intros w H1 H2. apply Hw in H1. apply Hrun2 in H2. congruence.
   Qed.
 
-  (** ---- 2. every way the holder of the pool lock can be unable to move ---- *)
+  (** ---- 2. the holder of the pool lock can always move ---- *)
 
-  Lemma valid_choice_keep s : valid_choice nconns s (best s) = true.
+  Lemma holder_can_step_inv s : lock_inv s -> holder_can_step strat nconns tgt s.
   Proof.
-    unfold valid_choice. destruct (best s) as [b|]; [|reflexivity].
-    rewrite Nat.eqb_refl. reflexivity.
-  Qed.
-
-  Lemma blocks_only_inv s :
-    lock_inv s -> holder_can_step nconns tgt s \/ notify_blocked s \/ connlock_blocked s.
-  Proof.
-    intros (Hrd & Hmx & [Hrun1 Hrun2] & Hw & Hk). unfold holder_can_step.
+    intros (Hrd & Hmx & [Hrun1 Hrun2] & Hw). unfold holder_can_step.
     destruct (writer s) as [[|w]|] eqn:Hwr.
     - (* Run inside updateBest *)
-      destruct (Hrun1 eq_refl) as [k Hp]. specialize (Hk _ Hp).
-      destruct (Nat.eq_dec k nconns) as [->|Hne].
-      + left. right. exists (best s). unfold step. rewrite Hp.
-        unfold is_writer. rewrite Hwr. rewrite Nat.leb_refl, valid_choice_keep. discriminate.
-      + destruct (cpc s k) as [|h] eqn:Hc.
-        * left. left. unfold step. rewrite Hp. unfold is_writer. rewrite Hwr.
-          assert (Hlt : Nat.ltb k nconns = true) by (apply Nat.ltb_lt; lia).
-          rewrite Hlt, Hc. discriminate.
-        * right. right. exists k, h. split; [exact Hc|]. left. exact Hp.
-    - (* waiter w inside subscribe *)
+      intros obs. unfold PoolWait.step. rewrite (Hrun1 eq_refl). unfold is_writer. rewrite Hwr. discriminate.
+    - (* waiter w inside subscribe: MasterHead() of the best connection never blocks *)
       assert (Hpc : wpc s w = WSubL) by (apply Hw; reflexivity).
-      unfold step. rewrite Hpc. unfold is_writer. rewrite Hwr, Nat.eqb_refl.
-      destruct (best s) as [b|] eqn:Hb; [|left; discriminate].
-      destruct (cpc s b) as [|h] eqn:Hc.
-      + left. destruct (tgt w <=? head s b)%N; discriminate.
-      + right. right. exists b, h. split; [exact Hc|]. right. exists w. auto.
-    - (* no writer: the only reader is Run inside notifySubscribers *)
-      destruct (rpc s) as [|u|u [|w rem]|k] eqn:Hp; try (left; left; exact Hrd).
-      + left. right. right. unfold step. rewrite Hp. discriminate.
-      + destruct (wch s w) as [m|] eqn:Hch.
-        * right. left. exists u, w, rem, m. auto.
-        * left. right. left. unfold step. rewrite Hp, Hch. discriminate.
+      unfold PoolWait.step. rewrite Hpc. unfold is_writer. rewrite Hwr, Nat.eqb_refl.
+      destruct (best s) as [b|]; [|discriminate].
+      destruct (tgt w <=? head s b)%N; discriminate.
+    - (* no writer: the only reader is Run inside notifySubscribers; its send never blocks *)
+      destruct (rpc s) as [|u|u mt [|w rem]|] eqn:Hp; try (left; exact Hrd).
+      + right. right. unfold PoolWait.step. rewrite Hp. discriminate.
+      + right. left. unfold PoolWait.step. rewrite Hp. discriminate.
   Qed.
 
-  Theorem pool_blocks_only heads b s :
+  Theorem pool_never_blocks heads b s :
+    reachable (init_state heads b) s -> holder_can_step strat nconns tgt s.
+  Proof. intros Hr. apply holder_can_step_inv. exact (lock_inv_reachable _ _ _ Hr). Qed.
+
+  (** ---- 3. ... and frees the lock by finitely many moves of its own ---- *)
+
+  (** what the holder's moves leave alone *)
+  Definition same_outside (w0 : option nat) (s s' : state) : Prop :=
+    head s' = head s /\ pend s' = pend s /\ updq s' = updq s /\
+    (forall w, Some w <> w0 -> wpc s' w = wpc s w) /\
+    (forall w, Some w <> w0 -> wid s' w = wid s w) /\
+    (forall e, In e (wl s) -> In e (wl s')).
+
+  Lemma run_sends rem : forall s u mt,
+    rpc s = RNotify u mt rem ->
+    exists s', run s (repeat LSend (length rem)) = Some s' /\ rpc s' = RNotify u mt [] /\
+      readers s' = readers s /\ writer s' = writer s /\ wl s' = wl s /\ wpc s' = wpc s /\
+      wid s' = wid s /\ head s' = head s /\ pend s' = pend s /\ updq s' = updq s /\ best s' = best s.
+  Proof.
+    induction rem as [|w rem IH]; intros s u mt Hp; cbn [length repeat PoolWait.run].
+    - exists s. repeat apply conj; auto.
+    - unfold PoolWait.step at 1. rewrite Hp.
+      match goal with |- context [PoolWait.run _ _ _ ?s1 _] => set (s1' := s1) end.
+      destruct (IH s1' u mt eq_refl) as (s' & Hrun & H1 & H2 & H3 & H4 & H5 & H6 & H7 & H8 & H9 & H10).
+      exists s'. split; [exact Hrun|]. subst s1'. sred. repeat apply conj; assumption.
+  Qed.
+
+  Lemma release_frees s :
+    lock_inv s ->
+    exists s', run s (release s) = Some s' /\ lock_free s' = true /\
+      same_outside (match writer s with Some (AW w) => Some w | _ => None end) s s' /\
+      (rpc s = RIdle \/ (exists u, rpc s = RWantR u) -> rpc s' = rpc s) /\
+      (rpc s <> RIdle -> (forall u, rpc s <> RWantR u) -> rpc s' = RIdle).
+  Proof.
+    intros (Hrd & Hmx & [Hrun1 Hrun2] & Hw). unfold release.
+    destruct (writer s) as [[|w]|] eqn:Hwr.
+    - (* updateBest *)
+      pose proof (Hrun1 eq_refl) as Hp. cbn [PoolWait.run]. unfold PoolWait.step.
+      rewrite Hp. unfold is_writer. rewrite Hwr.
+      eexists. split; [reflexivity|]. sred. rewrite Hp in Hrd.
+      split; [apply lock_free_intro; sred; auto|].
+      split; [unfold same_outside; sred; repeat apply conj; auto|].
+      split; [intros [H|[u H]]; discriminate|auto].
+    - (* subscribe *)
+      assert (Hpc : wpc s w = WSubL) by (apply Hw; reflexivity).
+      assert (Hr0 : readers s = 0).
+      { rewrite Hrd. destruct (rpc s) eqn:Hp; try reflexivity.
+        specialize (Hmx _ _ _ eq_refl). congruence. }
+      cbn [PoolWait.run]. unfold PoolWait.step. rewrite Hpc. unfold is_writer. rewrite Hwr, Nat.eqb_refl.
+      assert (Hnotify : rpc s <> RIdle -> (forall u, rpc s <> RWantR u) -> False).
+      { intros H1 H2. destruct (rpc s) as [|u|u mt rem|] eqn:Hp; try congruence.
+        all: try (eapply H2; reflexivity).
+        all: try (specialize (Hmx _ _ _ eq_refl); congruence).
+        all: try (specialize (Hrun2 eq_refl); congruence). }
+      destruct (best s) as [b|].
+      + destruct (tgt w <=? head s b)%N.
+        all: eexists; split; [reflexivity|]; sred.
+        all: split; [apply lock_free_intro; sred; auto|].
+        all: split; [unfold same_outside; sred; repeat apply conj; auto;
+                     try (intros w' Hne; apply fupd_other; congruence);
+                     try (intros e He; apply in_or_app; auto)|].
+        all: split; [auto|intros H1 H2; exfalso; exact (Hnotify H1 H2)].
+      + eexists; split; [reflexivity|]; sred.
+        split; [apply lock_free_intro; sred; auto|].
+        split; [unfold same_outside; sred; repeat apply conj; auto;
+                intros w' Hne; apply fupd_other; congruence|].
+        split; [auto|intros H1 H2; exfalso; exact (Hnotify H1 H2)].
+    - destruct (rpc s) as [|u|u mt rem|] eqn:Hp.
+      + exists s. cbn [PoolWait.run]. split; [reflexivity|]. split; [apply lock_free_intro; auto|].
+        split; [unfold same_outside; repeat apply conj; auto|]. split; [auto|congruence].
+      + exists s. cbn [PoolWait.run]. split; [reflexivity|]. split; [apply lock_free_intro; auto|].
+        split; [unfold same_outside; repeat apply conj; auto|]. split; [auto|].
+        intros _ H. exfalso. eapply H. reflexivity.
+      + destruct (run_sends rem s u mt Hp) as (s1 & Hrun & H1 & H2 & H3 & H4 & H5 & H6 & H7 & H8 & H9 & H10).
+        rewrite run_app, Hrun. cbn [PoolWait.run]. unfold PoolWait.step. rewrite H1.
+        eexists. split; [reflexivity|]. sred.
+        split; [apply lock_free_intro; sred; [rewrite H2, Hrd; reflexivity|congruence]|].
+        split; [unfold same_outside; sred; repeat apply conj; try congruence;
+                try (intros; congruence)|].
+        split; [intros [H|[u' H]]; discriminate|auto].
+      + specialize (Hrun2 eq_refl). congruence.
+  Qed.
+
+  (** from every reachable state the moves of the lock holder alone free the pool lock *)
+  Theorem lock_released heads b s :
     reachable (init_state heads b) s ->
-    holder_can_step nconns tgt s \/ notify_blocked s \/ connlock_blocked s.
-  Proof. intros Hr. apply blocks_only_inv. exact (lock_inv_reachable _ _ _ Hr). Qed.
+    exists s', run s (release s) = Some s' /\ lock_free s' = true.
+  Proof.
+    intros Hr. destruct (release_frees s (lock_inv_reachable _ _ _ Hr)) as (s' & H1 & H2 & _).
+    eauto.
+  Qed.
 
-  Theorem pool_never_blocks_partial heads b s :
+  (** a caller that has left its loop (success, timeout or cancellation) returns:
+      after the holder's own moves its deferred unsubscribe runs *)
+  Theorem wait_returns heads b s w r :
+    reachable (init_state heads b) s -> wpc s w = WUnsub r ->
+    exists s', run s (release s ++ [LUnsub w]) = Some s' /\ wpc s' w = WDone r /\
+               (forall e, In e (wl s') -> fst e <> wid s w).
+  Proof.
+    intros Hr Hpc. pose proof (lock_inv_reachable _ _ _ Hr) as Hinv.
+    destruct (release_frees s Hinv) as (s1 & Hrun & Hfree & (_ & _ & _ & Hwpc & Hwid & _) & _).
+    assert (Hne : Some w <> match writer s with Some (AW w0) => Some w0 | _ => None end).
+    { destruct Hinv as (_ & _ & _ & Hw). destruct (writer s) as [[|w0]|] eqn:Hwr; try discriminate.
+      intros [= <-]. assert (wpc s w = WSubL) by (apply Hw; reflexivity). congruence. }
+    rewrite run_app, Hrun. cbn [PoolWait.run]. unfold PoolWait.step.
+    rewrite (Hwpc w Hne), Hpc, Hfree. eexists. split; [reflexivity|]. sred.
+    split; [apply fupd_same|].
+    intros e He. apply filter_In in He as [_ He]. rewrite (Hwid w Hne) in He.
+    apply negb_true_iff in He. apply N.eqb_neq in He. exact He.
+  Qed.
+
+  (** ---- 4. the update buffer is always drained: Run gets back to its select by
+          moves of the pool's own goroutines, and a pending SetMasterHead completes ---- *)
+
+  Lemma forallb_repeat_send n : forallb internal (repeat LSend n) = true.
+  Proof. induction n; [reflexivity|exact IHn]. Qed.
+
+  Lemma release_internal s : forallb internal (release s) = true.
+  Proof.
+    unfold release. destruct (writer s) as [[|w]|]; try reflexivity.
+    destruct (rpc s); try reflexivity.
+    rewrite forallb_app, forallb_repeat_send. reflexivity.
+  Qed.
+
+  Lemma is_order_self s : is_order (map snd (wl s)) s = true.
+  Proof.
+    unfold is_order. rewrite Nat.eqb_refl. cbn [andb].
+    assert (H : forall l, forallb (fun w => mem w l) l = true).
+    { intros l. apply forallb_forall. intros x Hx. unfold mem. apply existsb_exists.
+      exists x. split; [exact Hx|apply Nat.eqb_refl]. }
+    rewrite H. reflexivity.
+  Qed.
+
+  Theorem run_gets_home heads b s :
     reachable (init_state heads b) s ->
-    ~ notify_blocked s -> ~ connlock_blocked s -> holder_can_step nconns tgt s.
+    exists ls s', forallb internal ls = true /\ run s ls = Some s' /\ rpc s' = RIdle /\
+                  updq s' = updq s /\ pend s' = pend s.
   Proof.
-    intros Hr Hn Hc. destruct (pool_blocks_only _ _ _ Hr) as [H|[H|H]]; [exact H|contradiction..].
+    intros Hr. pose proof (lock_inv_reachable _ _ _ Hr) as Hinv.
+    destruct (release_frees s Hinv) as (s1 & Hrun & Hfree & (_ & Hpend & Hupdq & _) & Hkeep & Hidle).
+    pose proof (release_internal s) as Hint.
+    destruct (rpc s) as [|u|u mt rem|] eqn:Hp.
+    - exists [], s. repeat apply conj; auto.
+    - (* wait for the lock, RLock, notify everybody, RUnlock *)
+      assert (Hp1 : rpc s1 = RWantR u) by (apply Hkeep; right; eexists; reflexivity).
+      apply lock_free_true in Hfree as [Hr1 Hw1].
+      assert (Hs2 : exists s2, step s1 (LRLock (map snd (wl s1))) = Some s2 /\
+                  (exists mt rem, rpc s2 = RNotify u mt rem) /\ updq s2 = updq s1 /\ pend s2 = pend s1).
+      { unfold PoolWait.step. rewrite Hp1, Hw1. destruct (same_best s1 (fst u)).
+        - rewrite is_order_self. eexists. split; [reflexivity|]. sred. eauto.
+        - eexists. split; [reflexivity|]. sred. eauto. }
+      destruct Hs2 as (s2 & Hstep & (mt & rem & Hp2) & Hq2 & Hd2).
+      destruct (run_sends rem s2 u mt Hp2) as (s3 & Hrun3 & Hp3 & _ & _ & _ & _ & _ & _ & Hd3 & Hq3 & _).
+      exists (release s ++ [LRLock (map snd (wl s1))] ++ repeat LSend (length rem) ++ [LRUnlock]).
+      eexists. split.
+      { rewrite !forallb_app, Hint, forallb_repeat_send. reflexivity. }
+      rewrite run_app, Hrun. cbn [app PoolWait.run]. rewrite Hstep.
+      rewrite run_app, Hrun3. cbn [PoolWait.run]. unfold PoolWait.step at 1. rewrite Hp3.
+      split; [reflexivity|]. sred. repeat apply conj; congruence.
+    - exists (release s), s1. repeat apply conj; auto. apply Hidle; congruence.
+    - exists (release s), s1. repeat apply conj; auto. apply Hidle; congruence.
   Qed.
 
-  (** transient or permanent?  A blocked notification is resolved by the owner of
-      the full channel if (and only if) that waiter is still in its select loop; a
-      blocked connection-lock wait is resolved by the publisher if (and only if)
-      the update buffer has room. *)
-  Lemma notify_blocked_transient s u w rem m :
-    rpc s = RNotify u (w :: rem) -> wch s w = Some m -> wpc s w = WWait ->
-    step s (LRecv w) <> None.
-  Proof. intros _ Hch Hpc. unfold step. rewrite Hpc, Hch. discriminate. Qed.
-
-  Lemma connlock_blocked_transient s c h :
-    cpc s c = CPub h -> length (updq s) < upd_cap -> step s (LPublish c) <> None.
+  (** the buffer never holds more than its capacity *)
+  Lemma updq_bounded heads b s :
+    reachable (init_state heads b) s -> length (updq s) <= upd_cap.
   Proof.
-    intros Hc Hlen. unfold step. rewrite Hc.
-    apply Nat.ltb_lt in Hlen. rewrite Hlen. discriminate.
+    induction 1 as [|s l s' _ IH Hs].
+    - cbn. unfold upd_cap. lia.
+    - step_inv Hs; guards; sred; try assumption.
+      all: try (rewrite app_length; cbn [length]; lia).
+      all: cbn [length] in IH; lia.
   Qed.
 
-  (** F14: Run is sending into the full channel of a waiter that has already left
-      its loop and wants the write lock for unsubscribe.  Nothing any agent does
-      changes this: Run never finishes the notification, the waiter never returns. *)
-  Definition f14_dead (u : msg) (w : nat) (rem : list nat) (r : wres) (s : state) : Prop :=
-    rpc s = RNotify u (w :: rem) /\ wch s w <> None /\ wpc s w = WUnsub r /\ readers s <> 0.
-
-  Lemma f14_dead_stable u w rem r s l s' :
-    f14_dead u w rem r s -> step s l = Some s' -> f14_dead u w rem r s'.
+  (** SetMasterHead never waits for good: its send completes at once when the buffer
+      has room, and otherwise after Run (which is never stuck) has taken one update *)
+  Theorem publish_completes heads b s k m :
+    reachable (init_state heads b) s -> nth_error (pend s) k = Some m ->
+    exists ls s', forallb internal ls = true /\ run s (ls ++ [LPublish k]) = Some s' /\
+                  In m (updq s').
   Proof.
-    intros (Hp & Hch & Hpc & Hrd) Hs. unfold f14_dead.
-    step_inv Hs; guards; sred; try congruence.
-    all: repeat apply conj; fu; sred; try congruence; try lia.
+    intros Hr Hk.
+    destruct (Nat.ltb (length (updq s)) upd_cap) eqn:Hroom.
+    - exists []. cbn [app PoolWait.run]. unfold PoolWait.step. rewrite Hk, Hroom.
+      eexists. split; [reflexivity|]. split; [reflexivity|]. sred. apply in_or_app. right. left. reflexivity.
+    - destruct (run_gets_home _ _ _ Hr) as (ls & s1 & Hint & Hrun & Hp & Hq & Hd).
+      apply Nat.ltb_ge in Hroom. unfold upd_cap in Hroom.
+      destruct (updq s) as [|u rest] eqn:Hupdq; [cbn in Hroom; lia|].
+      assert (Hlen : length rest = length (updq s1) - 1) by (rewrite Hq; cbn [length]; lia).
+      assert (Hcap : length (u :: rest) <= upd_cap).
+      { rewrite <- Hupdq. eapply updq_bounded. exact Hr. }
+      exists (ls ++ [LTake]). eexists. split.
+      { rewrite forallb_app, Hint. reflexivity. }
+      rewrite <- app_assoc, run_app, Hrun. cbn [app PoolWait.run].
+      unfold PoolWait.step at 1. rewrite Hp, Hq.
+      unfold PoolWait.step at 1. sred. rewrite Hd, Hk.
+      assert (Hlt : Nat.ltb (length rest) upd_cap = true).
+      { apply Nat.ltb_lt. cbn [length] in Hcap. lia. }
+      rewrite Hlt. split; [reflexivity|]. sred. apply in_or_app. right. left. reflexivity.
   Qed.
 
-  (** and while it lasts nobody can take the pool lock: no subscribe, no
-      unsubscribe, no updateBest, and Run takes no further update *)
-  Lemma f14_dead_freezes u w rem r s :
-    f14_dead u w rem r s ->
-    (forall w', step s (LSubLock w') = None) /\ (forall w', step s (LUnsub w') = None) /\
-    step s LTick = None /\ step s LTake = None /\ step s LSend = None /\ step s LRUnlock = None.
+  (** the critical section of SetMasterHead is always enabled (c.mu is never held
+      across a blocking operation) *)
+  Lemma set_head_enabled s c h : step s (LSetHead c h) <> None.
+  Proof. unfold PoolWait.step. destruct (head s c <? h)%N; discriminate. Qed.
+
+  (** connection.masterHead is monotone in seqno *)
+  Lemma head_monotone s l s' c : step s l = Some s' -> (head s c <= head s' c)%N.
   Proof.
-    intros (Hp & Hch & Hpc & Hrd).
-    assert (Hlf : lock_free s = false).
-    { unfold lock_free. destruct (Nat.eqb_spec (readers s) 0); [contradiction|reflexivity]. }
-    unfold step. rewrite Hp, Hlf. repeat apply conj; try reflexivity.
-    - intros w'. destruct (wpc s w'); reflexivity.
-    - intros w'. destruct (wpc s w'); reflexivity.
-    - destruct (wch s w); [reflexivity|contradiction].
+    intros Hs. step_inv Hs; guards; sred; try lia.
+    fu; [|lia]. match goal with H : (_ <? _)%N = true |- _ => apply N.ltb_lt in H end. lia.
   Qed.
 
-  (** second class: Run is inside updateBest (write lock held) waiting for the lock
-      of connection k, which is blocked publishing into the full update buffer that
-      only Run drains. *)
-  Definition upd_dead (k : nat) (h : N) (s : state) : Prop :=
-    rpc s = RUpd k /\ k < nconns /\ cpc s k = CPub h /\ length (updq s) = upd_cap.
-
-  Lemma upd_dead_stable k h s l s' :
-    upd_dead k h s -> step s l = Some s' -> upd_dead k h s'.
+  Lemma head_monotone_reachable s s' c : reachable s s' -> (head s c <= head s' c)%N.
   Proof.
-    intros (Hp & Hk & Hc & Hlen) Hs. unfold upd_dead.
-    step_inv Hs; guards; sred; try congruence; try lia.
-    all: repeat apply conj; fu; sred; try congruence; try lia.
-    all: match goal with H : RUpd _ = RUpd _ |- _ => injection H as ->; lia end.
+    induction 1 as [|s1 l s2 _ IH Hs]; [lia|]. pose proof (head_monotone _ _ _ c Hs). lia.
   Qed.
 
-  (** third class: a waiter is inside subscribe (write lock held) waiting for the
-      lock of the best connection, which is blocked publishing into the full
-      buffer, while Run has already taken an update and waits for the read lock. *)
-  Definition sub_dead (w c : nat) (h : N) (u : msg) (s : state) : Prop :=
-    wpc s w = WSubL /\ writer s = Some (AW w) /\ best s = Some c /\ cpc s c = CPub h /\
-    length (updq s) = upd_cap /\ rpc s = RWantR u.
+  (** ---- 5. the best connection is a connection of the pool; subscribe never
+          dereferences nil once the pool has a connection ---- *)
 
-  Lemma sub_dead_stable w c h u s l s' :
-    sub_dead w c h u s -> step s l = Some s' -> sub_dead w c h u s'.
+  Lemma mk_conns_length heads obs : length (mk_conns nconns heads obs) = nconns.
+  Proof. unfold mk_conns. rewrite map_length, seq_length. reflexivity. Qed.
+
+  Lemma update_best_some cs b : exists i, update_best strat cs (Some b) = Some i.
   Proof.
-    intros (Hpc & Hwr & Hb & Hc & Hlen & Hp) Hs. unfold sub_dead.
-    step_inv Hs; guards; sred; try congruence; try lia.
-    all: repeat apply conj; fu; sred; try congruence; try lia.
+    unfold update_best. destruct cs as [|c t]; [eauto|].
+    destruct strat; [| |eauto].
+    - destruct (find_best_ping _ _ _ _) as [[i r]|]; eauto.
+    - destruct (find_first_working _ _ _) as [i|]; eauto.
+  Qed.
+
+  Definition best_inv (s : state) : Prop :=
+    best s <> None /\ (forall b, best s = Some b -> b < nconns) /\ forall w, wpc s w <> WPanicked.
+
+  Lemma best_inv_step s l s' : best_inv s -> step s l = Some s' -> best_inv s'.
+  Proof.
+    intros (Hsome & Hlt & Hnp) Hs. unfold best_inv.
+    step_inv Hs; guards; sred; try solve [repeat apply conj; auto].
+    all: try match goal with H : best _ = Some _ |- _ => rewrite H end.
+    all: try solve [repeat apply conj; auto; intros w'; fu; sred; try congruence; auto].
+    all: try solve [exfalso; congruence].
+    (* updateBest *)
+    destruct (best s) as [b|] eqn:Hb; [|congruence].
+    destruct (update_best_some (mk_conns nconns (head s) obs) b) as [i Hi]. rewrite Hi.
+    split; [discriminate|]. split; [|exact Hnp].
+    intros b' [= <-].
+    destruct (update_best_range _ _ _ _ Hi) as [[= <-]|Hr]; [apply Hlt; reflexivity|].
+    rewrite mk_conns_length in Hr. exact Hr.
+  Qed.
+
+  Theorem subscribe_never_panics heads b s :
+    b < nconns -> reachable (init_state heads (Some b)) s ->
+    (exists b', best s = Some b' /\ b' < nconns) /\ forall w, wpc s w <> WPanicked.
+  Proof.
+    intros Hb Hr.
+    assert (Hinv : best_inv s).
+    { induction Hr as [|s l s' _ IH Hs]; [|exact (best_inv_step _ _ _ IH Hs)].
+      unfold best_inv, init_state. sred. repeat apply conj; try discriminate.
+      intros b' [= <-]. exact Hb. }
+    destruct Hinv as (Hsome & Hlt & Hnp). split; [|exact Hnp].
+    destruct (best s) as [b'|]; [|congruence]. exists b'. auto.
   Qed.
 End Inv.
